@@ -143,6 +143,14 @@ Theorem C01_reserve_failure_is_error :
 Proof. exact reserve_failure_is_error. Qed.
 Print Assumptions C01_reserve_failure_is_error.
 
+(* the model never runs out of fuel (Add with the underscore rename terminates within the fuel:
+   pigeonhole over name, name_, name__, ...), so a rejected file is a reserve failure *)
+Theorem C01_scope_error_is_reserve_failure :
+  forall identify lower_first ft f e,
+  scope_run identify lower_first ft f = SErr e -> e = EReserve.
+Proof. exact scope_error_is_reserve_failure. Qed.
+Print Assumptions C01_scope_error_is_reserve_failure.
+
 (* non-vacuity.  With the identity as naming style: a struct with fields get_x / x keeps field
    and getter apart; "struct NewX" before "struct X" is a reserve failure (New ++ X is taken). *)
 Open Scope string_scope.
